@@ -35,10 +35,9 @@ _tmp = {}
 def setup(ctx):
     import gaddlemaps.components as C
     import gaddlemaps.parsers._top_parsers as T
-    for f in (T._itp_top_atoms, T._parse_itp_bonds, T._itp_top_name, C.are_connected):
-        _cov.watch(f)
-    if hasattr(C, '_find_connected_atoms'):
-        _cov.watch(C._find_connected_atoms)
+    for mod, name in ((T, '_itp_top_atoms'), (T, '_parse_itp_bonds'), (T, '_itp_top_name'), (C, 'are_connected'),
+                      (C, '_find_connected_atoms')):
+        _cov.watch_attr(mod, name)
     _cov.start()
     _tmp['dir'] = tempfile.mkdtemp(prefix='gmv_c15_')
     sys.setrecursionlimit(1000)
